@@ -36,6 +36,10 @@ type Engine struct {
 	inlinable map[*ssa.Function]bool
 	tags      string
 	overlay   map[string][]byte
+	names     NameIndex // reference names (claimed/names.json) for rename inference
+	renames   map[string]map[string]string
+	infoOnce  sync.Once
+	infos     map[*types.Package]*types.Info
 }
 
 type SpecFn struct {
@@ -89,6 +93,7 @@ func loadEngine(repo, verifDir string, patterns []string, tags string, overlay m
 		return nil, err
 	}
 	e.contracts, e.all = byKey, all
+	e.names = loadNameIndex(verifDir)
 	return e, nil
 }
 
@@ -125,6 +130,24 @@ func (e *Engine) funcID(f *ssa.Function) int {
 
 // findFunc resolves a contract key to an ssa function.
 func (e *Engine) findFunc(pkgPath, key string) *ssa.Function {
+	if fn := e.findFunc0(pkgPath, key); fn != nil {
+		return fn
+	}
+	base, anon := key, ""
+	if !strings.HasPrefix(key, "(") {
+		if i := strings.Index(key, "$"); i > 0 {
+			base, anon = key[:i], key[i:]
+		}
+	} else if i := strings.LastIndex(key, "$"); i > strings.Index(key, ")") {
+		base, anon = key[:i], key[i:]
+	}
+	if nk := e.newFuncKey(pkgPath, base); nk != "" {
+		return e.findFunc0(pkgPath, nk+anon)
+	}
+	return nil
+}
+
+func (e *Engine) findFunc0(pkgPath, key string) *ssa.Function {
 	sp := e.spkgs[pkgPath]
 	if sp == nil {
 		return nil
